@@ -37,7 +37,9 @@ fn lexical(db: &SparqlDatabase) -> Result<Lex, String> {
 }
 
 fn gen_term(r: &mut Rng, depth: u32) -> T {
-    match r.below(8) { 0 | 1 if depth < 2 => T::Quoted(Box::new(gen_term(r, depth + 1)), Box::new(T::Iri(100 + r.below(2) as u32)), Box::new(gen_term(r, depth + 1))), 2 => T::Lit(r.below(5) as u32), 3 if r.chance(1, 2) => T::Esc(r.below(3) as u32), _ => T::Iri(r.below(8) as u32) }
+    match r.below(8) { 0 | 1 if depth < 2 => { let s = gen_term(r, depth + 1); // the store allows a quoted triple in every component position, the predicate included
+            let p = if depth == 0 && r.chance(1, 6) { T::Quoted(Box::new(T::Iri(r.below(8) as u32)), Box::new(T::Iri(100 + r.below(2) as u32)), Box::new(gen_term(r, 2))) } else { T::Iri(100 + r.below(2) as u32) };
+            T::Quoted(Box::new(s), Box::new(p), Box::new(gen_term(r, depth + 1))) } 2 => T::Lit(r.below(5) as u32), 3 if r.chance(1, 2) => T::Esc(r.below(3) as u32), _ => T::Iri(r.below(8) as u32) }
 }
 fn gen_ops(r: &mut Rng) -> Vec<DOp> {
     let n = 5 + r.usize(45);
@@ -96,7 +98,7 @@ fn grow(name: &str, db: &mut SparqlDatabase, ops: &[DOp], ctx: &mut Ctx) -> Resu
     for (id, canon) in &by_id { match db.decode_any(*id) { Some(d) if d == *canon => {} other => return Err(Violation::new("id-unstable", format!("db {}: identifier {} was issued for {:?} and decodes to {:?} at the end", name, id, canon, other))) } }
     Ok(quoted_terms)
 }
-fn collect_quoted(t: &T, out: &mut Vec<T>) { if let T::Quoted(s, _, o) = t { out.push(t.clone()); collect_quoted(s, out); collect_quoted(o, out); } }
+fn collect_quoted(t: &T, out: &mut Vec<T>) { if let T::Quoted(s, p, o) = t { out.push(t.clone()); collect_quoted(s, out); collect_quoted(p, out); collect_quoted(o, out); } }
 
 impl Prop for C15 {
     type Case = DictCase;
